@@ -6,9 +6,11 @@ EXTENDS Integers, Sequences, FiniteSets, TLC
 
 (* "GetMarkup": the class is that of the value under the media type key (the content itself is a plain string) *)
 Accessors == {"GetAny", "GetString", "GetNumber", "GetObject", "GetList", "GetTime", "GetURL", "GetMediaType", "GetMarkup"}
-StrClasses == {"str_empty", "str_plain", "str_ctl_only", "str_ctl_mixed", "str_tab_nl", "str_time", "str_url", "str_url_bad", "str_mime", "str_mime_bad",
+StrClasses == {"str_empty", "str_plain", "str_format", "str_ctl_only", "str_ctl_mixed", "str_tab_nl", "str_time", "str_url", "str_url_bad", "str_mime", "str_mime_bad",
                "str_mime_junk"}   \* a media type followed by something that is neither a parameter nor a token character (",text/html", " x"):
                                   \* it may be refused or read leniently - then as the media type it starts with
+                                  \* str_format: invisible characters that are no control characters (joiners, soft hyphen, direction marks,
+                                  \* line and paragraph separators, private use, variation selectors): part of the value, kept
 NumClasses == {"num_zero", "num_small", "num_2_53", "num_big_in_range", "num_neg", "num_frac", "num_ge_2_64", "num_huge"}
 Classes == {"missing", "null", "bool", "arr_empty", "arr_one", "arr_many", "obj"} \cup StrClasses \cup NumClasses
 
@@ -21,7 +23,7 @@ Allowed(acc, c) ==
         \* no media type (absent, null, empty once sanitised): the default applies; a media type of the wrong JSON type or
         \* one that cannot be parsed is an error, never silently the default; a well-formed one is rendered or unsupported
         IF Absentish(c) \/ EmptyString(c) THEN {"value"}
-        ELSE IF c \notin StrClasses \/ c \in {"str_mime_bad", "str_plain", "str_time"} THEN {"error"}
+        ELSE IF c \notin StrClasses \/ c \in {"str_mime_bad", "str_plain", "str_format", "str_time"} THEN {"error"}
         ELSE {"value", "error"}
     ELSE IF Absentish(c) THEN {"absent"}
     ELSE CASE acc = "GetAny"    -> {"value"}
@@ -37,7 +39,7 @@ Allowed(acc, c) ==
                                    ELSE IF c \in {"str_url", "str_plain", "str_mime"} THEN {"value"} ELSE {"value", "error"}
            [] acc = "GetMediaType" -> IF c \notin StrClasses THEN {"error"} ELSE IF EmptyString(c) THEN {"absent"}
                                    ELSE IF c = "str_mime" THEN {"value"}
-                                   ELSE IF c \in {"str_mime_bad", "str_plain", "str_time"} THEN {"error"} ELSE {"value", "error"}
+                                   ELSE IF c \in {"str_mime_bad", "str_plain", "str_format", "str_time"} THEN {"error"} ELSE {"value", "error"}
 
 (* one observation: outcome, and for "value" the canonical rendering of what was returned and of what the
    JSON holds (exact decimal expansion of the IEEE double for numbers, sanitised text for strings, ...) *)
@@ -45,6 +47,9 @@ Allowed(acc, c) ==
 ObsOK(acc, c, outcome, got, want) ==
     /\ outcome \in Allowed(acc, c)
     /\ outcome = "value" => got = want
+(* a value handed out belongs to its holder: whatever the holder does to it, a later read of the same JSON gives the
+   faithful value again (`again` in the trace) *)
+AgainOK(outcome, again, want) == outcome = "value" => again = want
 
 TableTotal == \A a \in Accessors, c \in Classes : Allowed(a, c) # {} /\ Allowed(a, c) \subseteq {"value", "absent", "error"}
 =============================================================================
